@@ -16,7 +16,7 @@ T = {
  "C13": ("Theorems: the exact-arithmetic invariants (running state = from-scratch statistic of the current window) are preserved by every step with no bound on the stream length; variance never negative; Minimum exact forever; the exact-rational oracle is the image of the exact real run (C13_t2_oracle). Float drift within tau(t): proved for SimpleMovingAverage (C13_sma_binary64_no_drift, up to 2^49 inputs); for the others validated on streams of 2*10^4 (quick) / 2*10^6 (thorough) inputs generated identically on both sides, against a fresh exact instance on the current window (partial); refuted for WMA (K7).",
          "Rocq proofs (unbounded invariants) + twin-generator long-stream correspondence (checkpoints + hash of all outputs) + exact-rational window recomputation"),
  "C15": ("Theorems for every number type (bit-exact): SlowStochastic, ATR, MACD, PPO, KC (scalar and bar), CE, BB (half-width = m*SD, middle = SD's mean), "
-         "CCI equal the hand wiring of the standalone streams; over exact reals BB.average = SMA (bb_average_is_sma).",
+         "CCI equal the hand wiring of the standalone streams; over exact reals BB.average = SMA (bb_average_is_sma); on binary64 |BB.average - SMA| <= (28t+2)*2^-53*M <= tau(t)*M is PROVED (C15_bb_average_binary64_vs_sma, C15_bb_average_binary64_within_tau: forward error analysis of the Welford running mean, C15_sd_mean_binary64_error, plus the SMA error theorem; periods < 2^40, up to 2^40 inputs, magnitude up to 2^400).",
          "Rocq proofs (stream induction, any carrier) + bit-exact correspondence + composite-vs-public-parts comparison on the implementation"),
  "C17": ("Theorems: over exact reals the last output of SMA, WMA, SD, MAD, BB, FastStochastic, CCI is a function of the last n inputs and that of RateOfChange, EfficiencyRatio, MoneyFlowIndex of the last n+1 (two histories sharing that suffix give equal outputs); Minimum and Maximum exactly, for any strict total order, instantiated bit-exactly for binary64 without NaN/-0.0. Float tolerances: implementation-level suffix-vs-full comparison (partial); WMA drift K7.",
          "Rocq proofs (corollaries of the exact refinement theorems; order theorems) + bit-exact correspondence + suffix-vs-full comparison on the implementation"),
